@@ -44,11 +44,13 @@ class FnResult:
     self.secs = 0.0
     self.exits = {}
     self.canary_ok = None
+    self.alpha = None
+    self.alpha_map = {}
     self.covers = 0
     self.samples = []         # (inputs, predicted result) per returning path, from a model of its path condition
 
 
-def verify_function(world, reg, c, prop, timeout_ms=20000, mutate=None, recheck=False, sample=False):
+def verify_function(world, reg, c, prop, timeout_ms=20000, mutate=None, recheck=False, sample=False, alpha=None):
   """Checks the real source of c.target against contract c. Returns FnResult."""
   res = FnResult(c.key)
   t0 = time.time()
@@ -61,6 +63,13 @@ def verify_function(world, reg, c, prop, timeout_ms=20000, mutate=None, recheck=
   if mutate is not None:
     node = mutate(node)
   res.hash = world_mod.fn_hash(node)
+  res.alpha = world_mod.alpha_form(node)
+  alpha_map = {}
+  if alpha and alpha[0] == res.alpha[0] and list(alpha[1]) != list(res.alpha[1]) and len(alpha[1]) == len(res.alpha[1]):
+    pairs = [(o, n) for o, n in zip(alpha[1], res.alpha[1]) if o != n]
+    if not ({o for o, _ in pairs} & set(res.alpha[1])):       # no old name is reused for another variable
+      alpha_map = dict(pairs)
+  res.alpha_map = alpha_map
   res.lines = (node.lineno, node.end_lineno)
   ex = Explorer()
   meta = {}
@@ -68,6 +77,7 @@ def verify_function(world, reg, c, prop, timeout_ms=20000, mutate=None, recheck=
   def run(path):
     it = Interp(world, ex, reg, prop)
     meta['it'] = it
+    it.alpha_map = alpha_map
     it.verifying = world_qual(mod, cls, node)
     it.cur_name = f'{prop}/{c.key}'
     it.cur_contract_for_loops = c
@@ -214,7 +224,7 @@ def verify_function(world, reg, c, prop, timeout_ms=20000, mutate=None, recheck=
       sv.set('timeout', 3000)
       for f_ in pc:
         sv.add(f_)
-      if sv.check() != z3.sat:
+      if guarded_check('sample', sv, 3000) != z3.sat:
         continue
       m_ = sv.model()
       inputs = {}
